@@ -40,6 +40,7 @@ def writer_file(nrec, enc, blocked, bits_for, mtis=('1240',)):
 
         def rp():
             return {'kind': 'info', 'args': {'msgs': [msg_witness(mm, ee, ev) for mm, ee in wit], 'enc': enc, 'blocked': blocked}}
+        core.set_fallback(rp, 'C17/concretised')
         f.pos = 0
         with guard('ipm_info', 'C17/exception', rp):
             info = m.ipm_info(f)
@@ -67,6 +68,7 @@ def invalid_short():
         # first length is read from the file: make it small so that only the size test decides
         f = RopeFile(src.rope() if not (isinstance(n, int) and n == 0) else b'')
         rp = {'kind': 'short', 'args': {'n': ev(n)}}
+        core.set_fallback(rp, 'C17/concretised')
         with guard('ipm_info', 'C17/exception', rp, allow=(core.Unsupported,)):
             try:
                 info = m.ipm_info(f)
@@ -86,6 +88,7 @@ def invalid_length():
         data = cat('b', mk('b', [U32(L, '>I')]), b'1240', body, b'0512345' + b' ' * 40)
         f = RopeFile(data)
         rp = {'kind': 'firstlen', 'args': {'L': ev(L)}}
+        core.set_fallback(rp, 'C17/concretised')
         with guard('ipm_info', 'C17/exception', rp):
             info = m.ipm_info(f)
         mx = M().config.config.get('MAX_VBS_RECORD_LENGTH', 6000)
@@ -106,6 +109,7 @@ def invalid_bit():
         bit1 = choose('bit1', [True, False])
         data = struct.pack('>I', 30) + b'1240' + bitmap_bytes([2, b], bit1) + b'0512345' + b' ' * 40
         rp = {'kind': 'bit', 'args': {'bit': b, 'bit1': bit1}}
+        core.set_fallback(rp, 'C17/concretised')
         with guard('ipm_info', 'C17/exception', rp):
             info = m.ipm_info(RopeFile(data))
         require(info.get('isValidIPM') is False and info.get('reason'), 'unconfigured bit %d not reported invalid' % b, key='C17/bit', replay=rp)
@@ -123,6 +127,7 @@ def configured_max():
         L = sym_int('first_len', 0, 20000)
         data = cat('b', mk('b', [U32(L, '>I')]), b'1240', bitmap_bytes([2]), b'0512345' + b' ' * 40)
         rp = {'kind': 'firstlen', 'args': {'L': ev(L), 'newmax': newmax}}
+        core.set_fallback(rp, 'C17/concretised')
         cfg['MAX_VBS_RECORD_LENGTH'] = newmax
         try:
             with guard('ipm_info', 'C17/exception', rp):
